@@ -194,10 +194,65 @@ harness!(
     leak(names);
 });
 
+// ---------------------------------------------------------------------------------------------
+// structs: record serializer (in-order fields, out-of-order fields through the field cache)
+
+#[derive(Serialize)]
+struct InOrder {
+    a: i64,
+    b: bool,
+}
+/// serde hands the fields over as b, c, a; the schema order is a, b, c: b and c wait in the cache
+#[derive(Serialize)]
+struct OutOfOrder {
+    b: bool,
+    c: bool,
+    a: bool,
+}
+
+harness!(
+    /// struct {a: i64, b: bool} under record {a: long, b: boolean}: all values
+    ser_struct_in_order, unwind = 12, {
+    use crate::schemas::*;
+    let names = no_names();
+    let schema = record("R", vec![field("a", Schema::Long), field("b", Schema::Boolean)]);
+    let x = InOrder { a: any_i64(), b: any_bool() };
+    let mut want = [0u8; 16];
+    let mut l = [0u8; 10];
+    let n = spec::enc_long(x.a, &mut l);
+    let mut i = 0;
+    while i < n {
+        want[i] = l[i];
+        i += 1;
+    }
+    want[n] = x.b as u8;
+    witness!(n == 10, "longest varint");
+    expect(ser(&x, &schema, &names, None), &want, n + 1);
+    leak(schema);
+    leak(names);
+});
+
+harness!(
+    /// struct whose serde field order is b, c, a under record {a, b, c: boolean}: the bytes are
+    /// in schema order whatever the order of arrival (two fields wait in the cache); all values
+    ser_struct_out_of_order, unwind = 12, {
+    use crate::schemas::*;
+    let names = no_names();
+    let schema = record("R", vec![field("a", Schema::Boolean), field("b", Schema::Boolean), field("c", Schema::Boolean)]);
+    let x = OutOfOrder { b: any_bool(), c: any_bool(), a: any_bool() };
+    let want = [x.a as u8, x.b as u8, x.c as u8, 0, 0, 0, 0, 0, 0, 0, 0, 0, 0, 0, 0, 0];
+    witness!(x.b != x.c, "a swap of the cached fields is visible");
+    expect(ser(&x, &schema, &names, None), &want, 3);
+    leak(schema);
+    leak(names);
+});
+
 pub const HARNESSES: &[(&str, fn())] = &[
     ("c16::ser_ints", ser_ints::body),
     ("c16::ser_scalars", ser_scalars::body),
     ("c16::ser_mismatch_writes_nothing", ser_mismatch_writes_nothing::body),
+    ("c16::ser_struct_in_order", ser_struct_in_order::body),
+    ("c16::ser_struct_out_of_order", ser_struct_out_of_order::body),
     ("c16::de_long", de_long::body),
     ("c16::de_scalars", de_scalars::body),
 ];
